@@ -2040,10 +2040,10 @@ func (g *shpGen) emit(c *shpCase, origin string) {
 
 // viaReader encodes the lookup list as a GSUB/GPOS table, optionally mutates the bytes, reads
 // them back with gtab.Read and returns the decoded lookup list.
-func (g *shpGen) viaReader(ll gtab.LookupList, tp gtab.Type, mutate bool) (out gtab.LookupList, status string) {
+func (g *shpGen) viaReader(ll gtab.LookupList, tp gtab.Type, mutate bool) (out gtab.LookupList, status string, data []byte) {
 	defer func() {
 		if r := recover(); r != nil {
-			out, status = nil, "encode/read panic"
+			out, status, data = nil, "encode/read panic", nil
 			if shpDebug {
 				fmt.Println("viaReader:", r)
 			}
@@ -2058,7 +2058,7 @@ func (g *shpGen) viaReader(ll gtab.LookupList, tp gtab.Type, mutate bool) (out g
 		FeatureList: []*gtab.Feature{{Tag: "test", Lookups: all}},
 		LookupList:  ll,
 	}
-	data := info.Encode()
+	data = info.Encode()
 	if mutate {
 		for i, n := 0, Pick(g.r, []int{1, 1, 2, 3}); i < n && len(data) > 10; i++ {
 			p := g.r.Range(10, len(data)-1)
@@ -2074,12 +2074,12 @@ func (g *shpGen) viaReader(ll gtab.LookupList, tp gtab.Type, mutate bool) (out g
 	}
 	res, err := gtab.Read(bytes.NewReader(data), tp)
 	if err != nil {
-		return nil, "rejected by the reader"
+		return nil, "rejected by the reader", data
 	}
 	if len(res.LookupList) == 0 {
-		return nil, "empty lookup list"
+		return nil, "empty lookup list", data
 	}
-	return res.LookupList, "read"
+	return res.LookupList, "read", data
 }
 
 var shpDebug = false
@@ -2093,6 +2093,18 @@ func areaShape(c *Ctx) {
 		c.Stat("obligation: trailing skipped glyphs (format)", what[:9])
 		g.emit(sc, "trailing skipped family")
 	}
+	// the families added after the round-3 seeds, every run
+	for i := 0; i < shpNestedCtxCount; i++ {
+		sc, what := shpNestedCtxCase(i)
+		c.Stat("obligation: contextual nested in contextual (parent x child format)", what)
+		g.emit(sc, "nested contextual family")
+	}
+	for i := 0; i < shpMarkSetCount; i++ {
+		sc, what := shpMarkSetCase(i)
+		c.Stat("obligation: nested lookup with the parent's flags and another filtering set", what[:9])
+		g.emit(sc, "mark filtering set family")
+	}
+	g.extensionFamily()
 	for c.evals < c.N && timeouts < maxTimeouts {
 		g.wild = false
 		g.gpos = false
@@ -2118,8 +2130,17 @@ func areaShape(c *Ctx) {
 			ll := g.lookupList(kinds)
 			g.reader = false
 			mutate := r.Chance(2, 3)
-			ll2, status := g.viaReader(ll, tp, mutate)
+			ll2, status, data := g.viaReader(ll, tp, mutate)
 			c.Stat("reader", fmt.Sprintf("%s (mutated=%v)", status, mutate))
+			if data != nil && status == "read" {
+				// the same table judged from its bytes: whatever the reader delivers must be applicable
+				seq := g.sequence(12)
+				gids := make([]int, len(seq))
+				for i, x := range seq {
+					gids[i] = int(x.GID)
+				}
+				c.Case(Direct, "shape.readsafe", fmt.Sprintf("tp=%d seq=%s file=%s", int(tp), ints(gids), hx(data)), true)
+			}
 			if ll2 == nil {
 				continue
 			}
@@ -2154,4 +2175,482 @@ func areaShape(c *Ctx) {
 		}
 		g.emit(sc, origin)
 	}
+}
+
+// ================================================================ families added after the round-3 seeds
+//
+// (a) contextual lookups nested in contextual lookups, all six formats as parent x all six as
+//     child, actions in decreasing / increasing / mixed sequence-index order, the context
+//     occurring twice in one sequence and a second call on the same Context (warm scratch slice);
+// (b) lookup lists read from hand-built bytes with extension lookups (GSUB 7 / GPOS 9) for every
+//     target type incl. the extension type itself, mixed extension / non-extension subtables;
+// (c) nested lookups that share the flags word of the parent but use another mark filtering set.
+
+const (
+	fA, fB, fC        = glyph.ID(1), glyph.ID(2), glyph.ID(3)
+	fD, fE, fF        = glyph.ID(4), glyph.ID(5), glyph.ID(6)
+	fL                = glyph.ID(7)
+	fM1, fM2, fM3     = glyph.ID(10), glyph.ID(11), glyph.ID(12)
+	fU, fV            = glyph.ID(14), glyph.ID(15)
+	shpNestedCtxCount = 6 * 6 * 3 * 2 * 2
+	shpMarkSetCount   = 6 * 4 * 3
+)
+
+// shpFamClass is the class definition used by the format-2 members of the families.
+var shpFamClass = classdef.Table{fA: 1, fB: 2, fC: 3, fM1: 4, fM2: 5, fM3: 6, fU: 7}
+
+func shpFamLookup(tp uint16, fl gtab.LookupFlags, set uint16, st ...gtab.Subtable) *gtab.LookupTable {
+	return &gtab.LookupTable{Meta: &gtab.LookupMetaInfo{LookupType: tp, LookupFlags: fl, MarkFilteringSet: set}, Subtables: st}
+}
+
+// shpMkContext builds a contextual subtable of the given format (51..63) whose only rule has
+// the input sequence `input` (first glyph included) and the given actions.
+func shpMkContext(format int, input []glyph.ID, acts []gtab.SeqLookup) (gtab.Subtable, uint16) {
+	first, rest := input[0], input[1:]
+	classes := make([]uint16, len(rest))
+	for i, x := range rest {
+		classes[i] = shpFamClass[x]
+	}
+	sets := make([]coverage.Set, len(input))
+	for i, x := range input {
+		sets[i] = coverage.Set{x: true}
+	}
+	switch format {
+	case 51:
+		return &gtab.SeqContext1{Cov: coverage.Table{first: 0}, Rules: [][]*gtab.SeqRule{{{Input: rest, Actions: acts}}}}, 5
+	case 52:
+		rules := make([][]*gtab.ClassSeqRule, shpFamClass[first]+1)
+		rules[shpFamClass[first]] = []*gtab.ClassSeqRule{{Input: classes, Actions: acts}}
+		return &gtab.SeqContext2{Cov: coverage.Table{first: 0}, Input: shpFamClass, Rules: rules}, 5
+	case 53:
+		return &gtab.SeqContext3{Input: sets, Actions: acts}, 5
+	case 61:
+		return &gtab.ChainedSeqContext1{Cov: coverage.Table{first: 0}, Rules: [][]*gtab.ChainedSeqRule{{{Input: rest, Actions: acts}}}}, 6
+	case 62:
+		rules := make([][]*gtab.ChainedClassSeqRule, shpFamClass[first]+1)
+		rules[shpFamClass[first]] = []*gtab.ChainedClassSeqRule{{Input: classes, Actions: acts}}
+		return &gtab.ChainedSeqContext2{Cov: coverage.Table{first: 0}, Backtrack: shpFamClass, Input: shpFamClass, Lookahead: shpFamClass, Rules: rules}, 6
+	}
+	return &gtab.ChainedSeqContext3{Input: sets, Actions: acts}, 6
+}
+
+// shpMkChild builds the nested contextual lookup of family (a): it covers B and C; with
+// `match` its rules match in "...B C..." (B followed by C; C alone), otherwise they get past the
+// coverage test and fail on the next glyph.  Its action runs lookup `target` at index 0.
+func shpMkChild(format int, match bool, target gtab.LookupIndex) (gtab.Subtable, uint16) {
+	acts := []gtab.SeqLookup{{SequenceIndex: 0, LookupListIndex: target}}
+	restB, restC := []glyph.ID{fC}, []glyph.ID{}
+	if !match {
+		restB, restC = []glyph.ID{fA}, []glyph.ID{fB}
+	}
+	cls := func(l []glyph.ID) []uint16 {
+		out := make([]uint16, len(l))
+		for i, x := range l {
+			out[i] = shpFamClass[x]
+		}
+		return out
+	}
+	cov := coverage.Table{fB: 0, fC: 1}
+	in3 := []coverage.Set{{fB: true, fC: true}}
+	if !match {
+		in3 = append(in3, coverage.Set{fU: true})
+	}
+	switch format {
+	case 51:
+		return &gtab.SeqContext1{Cov: cov, Rules: [][]*gtab.SeqRule{{{Input: restB, Actions: acts}}, {{Input: restC, Actions: acts}}}}, 5
+	case 52:
+		return &gtab.SeqContext2{Cov: cov, Input: shpFamClass, Rules: [][]*gtab.ClassSeqRule{nil, nil,
+			{{Input: cls(restB), Actions: acts}}, {{Input: cls(restC), Actions: acts}}}}, 5
+	case 53:
+		return &gtab.SeqContext3{Input: in3, Actions: acts}, 5
+	case 61:
+		return &gtab.ChainedSeqContext1{Cov: cov, Rules: [][]*gtab.ChainedSeqRule{{{Input: restB, Actions: acts}}, {{Input: restC, Actions: acts}}}}, 6
+	case 62:
+		return &gtab.ChainedSeqContext2{Cov: cov, Backtrack: shpFamClass, Input: shpFamClass, Lookahead: shpFamClass,
+			Rules: [][]*gtab.ChainedClassSeqRule{nil, nil, {{Input: cls(restB), Actions: acts}}, {{Input: cls(restC), Actions: acts}}}}, 6
+	}
+	return &gtab.ChainedSeqContext3{Input: in3, Actions: acts}, 6
+}
+
+func shpFamSeq(gids ...glyph.ID) []glyph.Info {
+	s := make([]glyph.Info, len(gids))
+	for i, x := range gids {
+		s[i] = glyph.Info{GID: x, Text: []rune{rune(97 + i)}}
+	}
+	return s
+}
+
+var shpFamGdef = &gdef.Table{
+	GlyphClass: classdef.Table{fA: gdef.GlyphClassBase, fB: gdef.GlyphClassBase, fC: gdef.GlyphClassBase, fL: gdef.GlyphClassLigature,
+		fM1: gdef.GlyphClassMark, fM2: gdef.GlyphClassMark, fM3: gdef.GlyphClassMark},
+	MarkGlyphSets: []coverage.Set{{fM1: true}, {fM2: true}, {fM1: true, fM3: true}, {fM3: true}},
+}
+
+// shpNestedCtxCase: member idx of family (a).
+func shpNestedCtxCase(idx int) (*shpCase, string) {
+	formats := shpTrailingFormats
+	pf := formats[idx%6]
+	idx /= 6
+	cf := formats[idx%6]
+	idx /= 6
+	order := idx % 3
+	idx /= 3
+	match := idx%2 == 0
+	idx /= 2
+	marks := idx%2 == 1
+
+	var acts []gtab.SeqLookup
+	switch order {
+	case 0: // decreasing: the contextual child at the LATER index first, then an earlier index
+		acts = []gtab.SeqLookup{{SequenceIndex: 1, LookupListIndex: 2}, {SequenceIndex: 0, LookupListIndex: 1}}
+	case 1: // increasing
+		acts = []gtab.SeqLookup{{SequenceIndex: 0, LookupListIndex: 1}, {SequenceIndex: 1, LookupListIndex: 2}, {SequenceIndex: 2, LookupListIndex: 1}}
+	default: // the child at the last index, then two earlier ones in decreasing order
+		acts = []gtab.SeqLookup{{SequenceIndex: 2, LookupListIndex: 2}, {SequenceIndex: 1, LookupListIndex: 1}, {SequenceIndex: 0, LookupListIndex: 1}}
+	}
+	parent, ptp := shpMkContext(pf, []glyph.ID{fA, fB, fC}, acts)
+	child, ctp := shpMkChild(cf, match, 3)
+	var fl gtab.LookupFlags
+	if marks {
+		fl = gtab.IgnoreMarks
+	}
+	ll := gtab.LookupList{
+		shpFamLookup(ptp, fl, 0, parent),
+		shpFamLookup(1, 0, 0, &gtab.Gsub1_2{Cov: coverage.Table{fA: 0, fB: 1, fC: 2}, SubstituteGlyphIDs: []glyph.ID{fD, fE, fF}}),
+		shpFamLookup(ctp, fl, 0, child),
+		shpFamLookup(1, 0, 0, &gtab.Gsub1_2{Cov: coverage.Table{fB: 0, fC: 1}, SubstituteGlyphIDs: []glyph.ID{fU, fV}}),
+	}
+	one := []glyph.ID{fA, fB, fC}
+	if marks {
+		one = []glyph.ID{fA, fM1, fB, fM2, fC, fM1}
+	}
+	two := append(append([]glyph.ID{}, one...), one...)
+	three := append(append([]glyph.ID{}, two...), one...)
+	c := &shpCase{ll: ll, gd: shpFamGdef, lookups: []gtab.LookupIndex{0},
+		hist: [][]glyph.Info{shpFamSeq(two...), shpFamSeq(one...), shpFamSeq(three...)}}
+	return c, fmt.Sprintf("parent %d child %d", pf, cf)
+}
+
+// shpMarkSetCase: member idx of family (c).  Parent and nested lookup have the same flags word
+// (UseMarkFilteringSet) and different mark filtering sets.
+func shpMarkSetCase(idx int) (*shpCase, string) {
+	pf := shpTrailingFormats[idx%6]
+	idx /= 6
+	pairs := [][2]uint16{{0, 1}, {1, 0}, {2, 1}, {0, 3}}
+	pair := pairs[idx%4]
+	idx /= 4
+	scen := idx % 3
+	si, sj := shpFamGdef.MarkGlyphSets[pair[0]], shpFamGdef.MarkGlyphSets[pair[1]]
+	var onlyI, onlyJ glyph.ID // a mark in the parent's set only / in the nested lookup's set only
+	for _, m := range []glyph.ID{fM1, fM2, fM3} {
+		if si[m] && !sj[m] && onlyI == 0 {
+			onlyI = m
+		}
+		if sj[m] && !si[m] && onlyJ == 0 {
+			onlyJ = m
+		}
+	}
+	fl := gtab.LookupFlags(gtab.UseMarkFilteringSet)
+	var parent gtab.Subtable
+	var ptp uint16
+	var nested *gtab.LookupTable
+	var seq []glyph.ID
+	switch scen {
+	case 0: // the nested ligature must SKIP a mark which the parent keeps
+		parent, ptp = shpMkContext(pf, []glyph.ID{fA, onlyI, fB}, []gtab.SeqLookup{{SequenceIndex: 0, LookupListIndex: 1}})
+		nested = shpFamLookup(4, fl, pair[1], &gtab.Gsub4_1{Cov: coverage.Table{fA: 0}, Repl: [][]gtab.Ligature{{{In: []glyph.ID{fB}, Out: fL}}}})
+		seq = []glyph.ID{fA, onlyI, fB, fC, fA, onlyI, fB}
+	case 1: // the nested ligature must KEEP a mark which the parent skips
+		parent, ptp = shpMkContext(pf, []glyph.ID{fA, fB}, []gtab.SeqLookup{{SequenceIndex: 0, LookupListIndex: 1}})
+		nested = shpFamLookup(4, fl, pair[1], &gtab.Gsub4_1{Cov: coverage.Table{fA: 0}, Repl: [][]gtab.Ligature{{{In: []glyph.ID{onlyJ, fB}, Out: fL}}}})
+		seq = []glyph.ID{fA, onlyJ, fB, fC, fA, fB}
+	default: // the nested lookup must not be applied AT a mark it ignores
+		parent, ptp = shpMkContext(pf, []glyph.ID{fA, onlyI}, []gtab.SeqLookup{{SequenceIndex: 1, LookupListIndex: 1}})
+		nested = shpFamLookup(1, fl, pair[1], &gtab.Gsub1_2{Cov: coverage.Table{fM1: 0, fM2: 1, fM3: 2}, SubstituteGlyphIDs: []glyph.ID{fM2, fM3, fM1}})
+		seq = []glyph.ID{fA, onlyI, fB, fA, onlyI}
+	}
+	ll := gtab.LookupList{shpFamLookup(ptp, fl, pair[0], parent), nested}
+	c := &shpCase{ll: ll, gd: shpFamGdef, lookups: []gtab.LookupIndex{0}, hist: [][]glyph.Info{shpFamSeq(seq...)}}
+	return c, fmt.Sprintf("parent %d sets %d/%d scenario %d", pf, pair[0], pair[1], scen)
+}
+
+// ---------------------------------------------------------------- (b) tables from hand-built bytes
+
+// shpRawSub is one subtable of a hand-built lookup: its bytes and how often it is wrapped in
+// an extension record (0 = direct, 1 = extension, 2 = extension pointing to an extension).
+type shpRawSub struct {
+	data []byte
+	ext  int
+}
+
+type shpRawLookup struct {
+	tp, flags, set uint16
+	subs           []shpRawSub
+}
+
+func shpPut16(b []byte, x int) []byte { return append(b, byte(x>>8), byte(x)) }
+func shpPut32(b []byte, x int) []byte {
+	return append(b, byte(x>>24), byte(x>>16), byte(x>>8), byte(x))
+}
+
+// shpBuildGtab lays out a GSUB/GPOS table: header, script list, feature list, lookup list with
+// the lookup tables, their extension records and direct subtables, then the far subtables.
+func shpBuildGtab(extType uint16, lookups []shpRawLookup) []byte {
+	all := make([]gtab.LookupIndex, len(lookups))
+	for i := range all {
+		all[i] = gtab.LookupIndex(i)
+	}
+	scripts := gtab.VerifEncodeScriptList(map[language.Tag]*gtab.Features{language.MustParse("und-Zzzz"): {Required: 0}})
+	features := gtab.VerifEncodeFeatureList([]*gtab.Feature{{Tag: "test", Lookups: all}})
+
+	type fix struct{ at, recPos, target int } // 32-bit offset field at `at`, relative to recPos, of far item `target`
+	var ll []byte
+	ll = shpPut16(ll, len(lookups))
+	offPos := len(ll)
+	for range lookups {
+		ll = shpPut16(ll, 0)
+	}
+	var far [][]byte
+	var fixes []fix
+	for i, l := range lookups {
+		tpos := len(ll)
+		ll[offPos+2*i], ll[offPos+2*i+1] = byte(tpos>>8), byte(tpos)
+		tp := l.tp
+		for _, s := range l.subs {
+			if s.ext > 0 {
+				tp = extType
+			}
+		}
+		ll = shpPut16(ll, int(tp))
+		ll = shpPut16(ll, int(l.flags))
+		ll = shpPut16(ll, len(l.subs))
+		subOff := len(ll)
+		for range l.subs {
+			ll = shpPut16(ll, 0)
+		}
+		if l.flags&uint16(gtab.UseMarkFilteringSet) != 0 {
+			ll = shpPut16(ll, int(l.set))
+		}
+		for j, s := range l.subs {
+			rel := len(ll) - tpos
+			ll[subOff+2*j], ll[subOff+2*j+1] = byte(rel>>8), byte(rel)
+			if s.ext == 0 {
+				ll = append(ll, s.data...)
+				continue
+			}
+			recPos := len(ll)
+			ll = shpPut16(ll, 1)
+			ll = shpPut16(ll, int(func() uint16 {
+				if s.ext >= 2 {
+					return extType
+				}
+				return l.tp
+			}()))
+			fixes = append(fixes, fix{at: len(ll), recPos: recPos, target: len(far)})
+			ll = shpPut32(ll, 0)
+			if s.ext >= 2 {
+				// a second extension record in the far area, pointing to the data right behind it
+				var rec []byte
+				rec = shpPut16(rec, 1)
+				rec = shpPut16(rec, int(l.tp))
+				rec = shpPut32(rec, 8)
+				far = append(far, append(rec, s.data...))
+			} else {
+				far = append(far, s.data)
+			}
+		}
+	}
+	farPos := make([]int, len(far))
+	for i, f := range far {
+		farPos[i] = len(ll)
+		ll = append(ll, f...)
+	}
+	for _, f := range fixes {
+		rel := farPos[f.target] - f.recPos
+		ll[f.at], ll[f.at+1], ll[f.at+2], ll[f.at+3] = byte(rel>>24), byte(rel>>16), byte(rel>>8), byte(rel)
+	}
+	var out []byte
+	out = append(out, 0, 1, 0, 0)
+	out = shpPut16(out, 10)
+	out = shpPut16(out, 10+len(scripts))
+	out = shpPut16(out, 10+len(scripts)+len(features))
+	out = append(out, scripts...)
+	out = append(out, features...)
+	return append(out, ll...)
+}
+
+// shpHasUnimpl: the list contains positioning data the library declares unimplemented.
+func shpHasUnimpl(ll gtab.LookupList) bool {
+	bad := func(p *gtab.PairAdjust) bool { return p != nil && (!shpValueOk(p.First) || !shpValueOk(p.Second)) }
+	for _, l := range ll {
+		if l == nil {
+			continue
+		}
+		for _, s := range l.Subtables {
+			switch s := s.(type) {
+			case *gtab.Gpos1_1:
+				if !shpValueOk(s.Adjust) {
+					return true
+				}
+			case *gtab.Gpos1_2:
+				for _, v := range s.Adjust {
+					if !shpValueOk(v) {
+						return true
+					}
+				}
+			case gtab.Gpos2_1:
+				for _, p := range s {
+					if bad(p) {
+						return true
+					}
+				}
+			case *gtab.Gpos2_2:
+				for _, row := range s.Adjust {
+					for _, p := range row {
+						if bad(p) {
+							return true
+						}
+					}
+				}
+			}
+		}
+	}
+	return false
+}
+
+func init() {
+	// D (no panic on what the reader delivers, from the BYTES): gtab.Read of the table; a
+	// rejected table is fine; an accepted one must consist of documented subtable types and
+	// Context.Apply with all its lookups must not panic on the given glyph sequence (tables with
+	// unimplemented positioning data are excluded by the property).  The driver prints "ok".
+	ops["shape.readsafe"] = func(f Fields) string {
+		info, err := gtab.Read(bytes.NewReader(f.Hex("file")), gtab.Type(f.Int("tp")))
+		if err != nil || info == nil {
+			return "ok"
+		}
+		if shpHasUnimpl(info.LookupList) {
+			return "ok"
+		}
+		c := &shpCase{ll: info.LookupList}
+		for i := range c.ll {
+			c.lookups = append(c.lookups, gtab.LookupIndex(i))
+		}
+		if _, ok := shpEncode(c); !ok {
+			return "undocumented-subtable-type-delivered"
+		}
+		var seq []glyph.Info
+		for i, x := range f.Ints("seq") {
+			seq = append(seq, glyph.Info{GID: glyph.ID(x), Text: []rune{rune(97 + i)}})
+		}
+		ctx := gtab.NewContext(c.ll, nil, c.lookups)
+		for k := 0; k < 2; k++ {
+			if _, ok := shpApply(ctx, seq); !ok {
+				return "panic"
+			}
+		}
+		return "ok"
+	}
+}
+
+var shpExtGsubKinds = []int{11, 12, 21, 31, 41, 81, 51, 52, 53, 61, 62, 63}
+var shpExtGposKinds = []int{101, 102, 103, 104, 105, 106, 107, 51, 52, 53, 61, 62, 63}
+
+// extensionFamily emits family (b): for every target type one lookup list from hand-built bytes.
+func (g *shpGen) extensionFamily() {
+	r := g.r
+	type job struct {
+		gpos bool
+		kind int
+		mode int // 0: all subtables behind extension records, 1: mixed with a direct subtable, 2: extension -> extension, 3: no extension
+	}
+	var jobs []job
+	for _, k := range shpExtGsubKinds {
+		for mode := 0; mode < 4; mode++ {
+			jobs = append(jobs, job{false, k, mode})
+		}
+	}
+	for _, k := range shpExtGposKinds {
+		for mode := 0; mode < 4; mode++ {
+			jobs = append(jobs, job{true, k, mode})
+		}
+	}
+	for _, j := range jobs {
+		g.wild, g.reader, g.gpos = false, true, j.gpos
+		g.nll = 3
+		g.nsets = len(shpFamGdef.MarkGlyphSets)
+		extType, tp := uint16(7), gtab.Type(gtab.TypeGsub)
+		if j.gpos {
+			extType, tp = 9, gtab.TypeGpos
+		}
+		var raw []shpRawLookup
+		// lookup 0: the target type behind extension records; lookup 1: the same type, direct;
+		// lookup 2: a simple lookup the nested actions can refer to
+		for li := 0; li < 3; li++ {
+			kind := j.kind
+			if li == 2 {
+				kind = 12
+				if j.gpos {
+					kind = 101
+				}
+			}
+			l := shpRawLookup{}
+			nsub := 1 + r.Intn(2)
+			for s := 0; s < nsub; s++ {
+				st, ltp := g.subtable(kind)
+				if j.gpos && kind >= 51 && kind <= 63 {
+					ltp += 2
+				}
+				l.tp = ltp
+				sub := shpRawSub{data: gtab.VerifSubtableEncode(st)}
+				if li == 0 {
+					switch j.mode {
+					case 0:
+						sub.ext = 1
+					case 1:
+						sub.ext = s % 2
+						if nsub == 1 {
+							sub.ext = 1
+						}
+					case 2:
+						sub.ext = 2
+					}
+				}
+				l.subs = append(l.subs, sub)
+			}
+			if li == 0 && j.mode == 1 && nsub == 1 {
+				// make it really mixed: add a direct copy of the subtable
+				l.subs = append(l.subs, shpRawSub{data: l.subs[0].data})
+			}
+			fl, set := g.flags(g.nsets)
+			l.flags, l.set = uint16(fl), set
+			raw = append(raw, l)
+		}
+		g.reader = false
+		data := shpBuildGtab(extType, raw)
+		seq := g.sequence(12)
+		gids := make([]int, len(seq))
+		for i, x := range seq {
+			gids[i] = int(x.GID)
+		}
+		modes := []string{"all behind extension records", "mixed extension / direct", "extension -> extension", "no extension"}
+		g.c.Stat("obligation: extension lookups (mode)", modes[j.mode])
+		g.c.Stat("obligation: extension lookups (target kind)", fmt.Sprintf("%d gpos=%v", j.kind, j.gpos))
+		tpn := 1
+		if j.gpos {
+			tpn = 2
+		}
+		out := g.c.Case(Direct, "shape.readsafe", fmt.Sprintf("tp=%d seq=%s file=%s", tpn, ints(gids), hx(data)), true)
+		info, err := gtab.Read(bytes.NewReader(data), tp)
+		if err != nil {
+			g.c.Stat("reader (hand-built bytes)", "rejected: "+modes[j.mode])
+			continue
+		}
+		g.c.Stat("reader (hand-built bytes)", "read: "+modes[j.mode]+" -> "+out)
+		sc := &shpCase{ll: info.LookupList, gd: shpFamGdef, hist: [][]glyph.Info{seq, g.sequence(8)}}
+		for i := range sc.ll {
+			sc.lookups = append(sc.lookups, gtab.LookupIndex(i))
+		}
+		g.emit(sc, "gtab.Read (hand-built bytes with extension lookups)")
+	}
+	g.gpos = false
 }
